@@ -449,6 +449,8 @@ static void sort_objects(void *buffer, int with_size)
     reflection_Object_table_t object;
     reflection_Field_vec_t fields;
     reflection_Field_mutable_vec_t mfields;
+    reflection_Service_vec_t services;
+    reflection_RPCCall_vec_t calls;
 
     /* A length prefixed buffer starts after the prefix. */
     schema = reflection_Schema_as_root(with_size ? (uint8_t *)buffer + sizeof(flatbuffers_uoffset_t) : (uint8_t *)buffer);
@@ -459,6 +461,14 @@ static void sort_objects(void *buffer, int with_size)
         if (fields) {
             mfields = (reflection_Field_mutable_vec_t)fields;
             reflection_Field_vec_sort(mfields);
+        }
+    }
+    /* RPC calls have a name key like fields: keep them searchable with find. */
+    services = reflection_Schema_services(schema);
+    for (i = 0; i < reflection_Service_vec_len(services); ++i) {
+        calls = reflection_Service_calls(reflection_Service_vec_at(services, i));
+        if (calls) {
+            reflection_RPCCall_vec_sort((reflection_RPCCall_mutable_vec_t)calls);
         }
     }
 }
